@@ -152,7 +152,7 @@ def _custom_extractors(n):
 
     specs = [
         (space_boundaries_re(r"held|holding"), 0, ["held", "holding"]),
-        (space_boundaries_re(r"court"), re.I, ["court"]),
+        (space_boundaries_re(r"court"), re.I, ["Court"]),  # mixed-case filter string of a case-insensitive extractor
         (r"(\bnote\b)", 0, []),
         (space_boundaries_re(r"id\.,?|ibid\."), re.I, ["id.", "ibid."]),
     ]
